@@ -10,7 +10,13 @@
 //                                        (self: value after == value before, per self-assignment/self-swap);
 //                                        reference leg = the property: "wf 1 alive 0 self 1..." inside the
 //                                        documented domain (validity decided on std::vector), else na
-// family = (sv|iv)_(cm|m|c): static_vector / inplace_vector of a copy+move / move-only / copy-only element.
+// family = (sv|iv|sk|ss|fs)_(cm|m|c): static_vector / inplace_vector / stack / static_set / flat_set of a copy+move /
+// move-only / copy-only element; capacities 1,2,3,4,16 and (sv, iv) 0.
+// A history that ends in a fired precondition prints the steps up to it and `; stopped ; wf <b>` (mon: `contract wf <b>`):
+// nothing is compared about what happens after a contract violation.
+// Operations added by the review: irf / mif / asf / ctf (range members with forward-iterator sources), cta (construction
+// from T[n]), kcc / kmc (stack from a container), fei (erase_if on a flat_set); o-family: vsv vsu vsr vau vaw vnd vne vnc
+// vnl vnm vrc vrm fac; a-family: ace ame acp amp aqa aqm; pcopy / pown (below).
 #include "common.hpp"
 
 #include <algorithm>
@@ -25,6 +31,7 @@
 #include <etl/stack.hpp>
 #include <etl/tuple.hpp>
 #include <etl/inplace_vector.hpp>
+#include <etl/memory.hpp>
 #include <etl/optional.hpp>
 #include <etl/utility.hpp>
 #include <etl/variant.hpp>
@@ -504,6 +511,7 @@ struct VarAd {
     using A   = T<0>;
     using B   = T<2>;
     using Obj = etl::variant<A, int, B>;
+    static constexpr bool is_exp = false;
     static void observe(Obj const& v, i64& idx, i64& val)
     {
         idx = static_cast<i64>(v.index());
@@ -560,6 +568,7 @@ template <template <int> class T>
 struct OptAd {
     using E   = T<1>;
     using Obj = etl::optional<E>;
+    static constexpr bool is_exp = false;
     static void observe(Obj const& v, i64& idx, i64& val)
     {
         idx = v.has_value() ? 1 : 0;
@@ -615,6 +624,7 @@ struct ExpAd {
     using A   = T<0>;
     using B   = T<1>;
     using Obj = etl::expected<A, B>;
+    static constexpr bool is_exp = true;
     static void observe(Obj const& v, i64& idx, i64& val)
     {
         idx = v.has_value() ? 0 : 1;
@@ -1050,6 +1060,148 @@ static void run_pcopy(std::size_t cap, i64 n, i64 m, std::string const& what, Ou
     v1->~Vec();
 }
 
+// =================================================================================================
+// pown <var|opt|exp> <i0> <i1> <cc|mc|ca|ma>: the alternatives are trk::TP<Tag> (trivial default constructor,
+// destructor and copy assignment, user-provided copy constructor).  Object 0 holds alternative i0 (value 11),
+// object 1 alternative i1 (value 22); then cc: V c(v0)  mc: V c(move(v0))  ca: v1 = v0  ma: v1 = move(v0).
+// impl leg = the copy constructions of that operation as C:<object>.<alternative>:<object>.<alternative>
+// (object 2 = c) and index + value of both objects afterwards; reference leg = one copy construction exactly
+// when a class alternative has to be created (construction, or assignment across alternatives).
+// =================================================================================================
+template <typename Ad>
+static void run_pown(int i0, int i1, std::string const& what, Out& impl)
+{
+    using Obj = typename Ad::Obj;
+    alignas(Obj) static unsigned char raw[3][sizeof(Obj)];
+    trk::g_log.clear();
+    Obj* v[2] = {new (raw[0]) Obj{}, new (raw[1]) Obj{}};
+    OStep s0{"vem", 0, i0, 11};
+    OStep s1{"vem", 1, i1, 22};
+    if (Ad::is_exp) { s0.op = i0 == 0 ? "vem" : "vat"; s1.op = i1 == 0 ? "vem" : "vat"; }
+    Ad::apply(s0, v);
+    Ad::apply(s1, v);
+    trk::g_log.clear();
+    Obj* c = nullptr;
+    if (what == "cc") { c = new (raw[2]) Obj(*v[0]); }
+    else if (what == "mc") { c = new (raw[2]) Obj(etl::move(*v[0])); }
+    else if (what == "ca") { *v[1] = *v[0]; }
+    else if (what == "ma") { *v[1] = etl::move(*v[0]); }
+    auto name = [&](void const* p, int tag) -> std::string {
+        auto const* q = static_cast<char const*>(p);
+        for (int k = 0; k < 3; ++k) {
+            auto const* b = reinterpret_cast<char const*>(raw[k]);
+            if (q >= b && q < b + sizeof(Obj)) { return std::to_string(k) + "." + std::to_string(tag); }
+        }
+        return "x";
+    };
+    for (auto const& e : trk::g_log) {
+        if (e.kind == trk::CC) { impl.tok("C:" + name(e.self, e.tag) + ":" + name(e.other, e.tag)); }
+        else { impl.tok("E" + std::to_string(e.kind) + ":" + name(e.self, e.tag)); }
+    }
+    impl.tok(";");
+    for (auto* p : v) {
+        i64 idx = 0;
+        i64 val = 0;
+        Ad::observe(*p, idx, val);
+        impl.num(idx).num(val);
+    }
+    if (c != nullptr) { c->~Obj(); }
+    v[0]->~Obj();
+    v[1]->~Obj();
+}
+
+static bool pown_case(Toks& in, Out& impl, Out& ref)
+{
+    auto kind = in.str();
+    auto i0   = static_cast<int>(in.num());
+    auto i1   = static_cast<int>(in.num());
+    auto what = in.str();
+    auto tracked = [&](int i) { return kind == "var" ? (i == 0 || i == 2) : (kind == "opt" ? i == 1 : true); };
+    int n_alt = kind == "var" ? 3 : 2;
+    if (i0 < 0 || i1 < 0 || i0 >= n_alt || i1 >= n_alt) { impl.tok("bad-case"); return true; }
+    if (kind == "var") { run_pown<VarAd<trk::TP>>(i0, i1, what, impl); }
+    else if (kind == "opt") { run_pown<OptAd<trk::TP>>(i0, i1, what, impl); }
+    else if (kind == "exp") { run_pown<ExpAd<trk::TP>>(i0, i1, what, impl); }
+    else { impl.tok("bad-instantiation"); return true; }
+    bool third = what == "cc" || what == "mc";
+    if (tracked(i0) && (third || i1 != i0)) {
+        ref.tok("C:" + std::string(third ? "2" : "1") + "." + std::to_string(i0) + ":0." + std::to_string(i0));
+    }
+    ref.tok(";");
+    ref.num(i0).num(tracked(i0) ? 11 : 0);
+    if (third) { ref.num(i1).num(tracked(i1) ? 22 : 0); }
+    else { ref.num(i0).num(tracked(i0) ? 11 : 0); }
+    return true;
+}
+
+// =================================================================================================
+// uhist / umon <copy|move|fill> <n> <k>: etl::uninitialized_copy / uninitialized_move / uninitialized_fill of n
+// elements of trk::TrkX into raw storage; the element constructor throws during its (k+1)-th call (k < 0: never).
+//   uhist: impl leg = the events in program order (d.i destination slot, s.j source object) + whether the exception
+//          left the function; reference leg na (correspondence with coq/C03/ModelMem.v)
+//   umon:  impl leg = verdict of the run-time monitor on the real log: thrown <b> wf <b> dest <number of destination
+//          slots holding an object afterwards>; reference leg = the property: thrown iff 0 <= k < n, wf 1, dest 0 after
+//          an exception, else n
+// =================================================================================================
+static bool umem_case(std::string const& op, Toks& in, Out& impl, Out& ref)
+{
+    using T   = trk::TrkX;
+    auto what = in.str();
+    auto n    = in.num();
+    auto k    = in.num();
+    if (n < 0 || n > 8) { impl.tok("bad-case"); return true; }
+    alignas(T) static unsigned char dest_raw[sizeof(T) * 8];
+    alignas(T) static unsigned char src_raw[sizeof(T) * 8];
+    auto* dest = reinterpret_cast<T*>(dest_raw);
+    auto* src  = reinterpret_cast<T*>(src_raw);
+    trk::g_fuse = -1;
+    trk::g_log.clear();
+    auto n_src = what == "fill" ? std::size_t{1} : static_cast<std::size_t>(n);
+    for (std::size_t i = 0; i < n_src; ++i) { new (src + i) T(static_cast<int>(10 + i)); }
+    trk::Locator where;
+    where.regions.resize(2);
+    where.regions[0] = trk::Region{reinterpret_cast<char const*>(dest_raw), sizeof(T), 8};
+    where.regions[1] = trk::Region{reinterpret_cast<char const*>(src_raw), sizeof(T), 8};
+    trk::Monitor mon;
+    (void)mon.run(where, trk::g_log, 0);
+    auto done   = trk::g_log.size();
+    bool thrown = false;
+    trk::g_fuse = static_cast<int>(k);
+    try {
+        if (what == "copy") { (void)etl::uninitialized_copy(src, src + n, dest); }
+        else if (what == "move") { (void)etl::uninitialized_move(src, src + n, dest); }
+        else { etl::uninitialized_fill(dest, dest + n, src[0]); }
+    } catch (int) {
+        thrown = true;
+    }
+    trk::g_fuse = -1;
+    auto so = mon.run(where, trk::g_log, done);
+    long alive_dest = 0;
+    for (auto const& kv : mon.st) { if (kv.first.first == 0 && kv.second != trk::Dead) { ++alive_dest; } }
+    if (op == "uhist") {
+        for (std::size_t e = done; e < trk::g_log.size(); ++e) {
+            auto const& ev = trk::g_log[e];
+            auto nm = [&](void const* p) {
+                auto l = where.locate(p);
+                return std::string(l.first == 0 ? "d." : (l.first == 1 ? "s." : "x.")) + std::to_string(l.first < 0 ? 0 : l.second);
+            };
+            if (ev.kind == trk::CC) { impl.tok("Cc:" + nm(ev.self) + ":" + nm(ev.other)); }
+            else if (ev.kind == trk::CM) { impl.tok("Cm:" + nm(ev.self) + ":" + nm(ev.other)); }
+            else if (ev.kind == trk::DT) { impl.tok("D:" + nm(ev.self)); }
+            else { impl.tok("E" + std::to_string(ev.kind) + ":" + nm(ev.self)); }
+        }
+        impl.tok("; thrown").b(thrown);
+    } else {
+        impl.tok("thrown").b(thrown).tok("wf").b(mon.wf && so.ok).tok("dest").num(alive_dest);
+        bool expect_throw = k >= 0 && k < n;
+        ref.tok("thrown").b(expect_throw).tok("wf 1 dest").num(expect_throw ? 0 : n);
+    }
+    // leave nothing behind
+    if (!thrown) { for (i64 i = 0; i < n; ++i) { dest[i].~T(); } }
+    for (std::size_t i = 0; i < n_src; ++i) { src[i].~T(); }
+    return true;
+}
+
 static bool pcopy_case(Toks& in, Out& impl, Out& ref)
 {
     auto kind = in.str();
@@ -1077,6 +1229,8 @@ static bool pcopy_case(Toks& in, Out& impl, Out& ref)
 bool vh::run_case(std::string const& op, Toks& in, Out& impl, Out& ref)
 {
     if (op == "pcopy") { return pcopy_case(in, impl, ref); }
+    if (op == "pown") { return pown_case(in, impl, ref); }
+    if (op == "uhist" || op == "umon") { return umem_case(op, in, impl, ref); }
     if (op == "ohist" || op == "orawhist" || op == "omon") { return own_case(op, in, impl, ref); }
     if (op == "ahist" || op == "arawhist" || op == "amon") { return agg_case(op, in, impl, ref); }
     if (op != "hist" && op != "rawhist" && op != "mon") { return false; }
